@@ -7,6 +7,7 @@ import (
 	"os"
 	"os/exec"
 	"path/filepath"
+	"strconv"
 	"strings"
 	"sync"
 	"time"
@@ -112,6 +113,14 @@ func solve(o *Obl, dir string, idx int, timeout time.Duration, each bool) *Solve
 		status string
 		out    string
 		file   string
+	}
+	if o.Enc != nil && o.Enc.contract != nil {
+		// `opt timeout=N`: obligations of this function are known to be heavy (e.g. 256-bit vectors)
+		if v := o.Enc.contract.Opts["timeout"]; v != "" {
+			if n, err := strconv.Atoi(v); err == nil && time.Duration(n)*time.Second > timeout {
+				timeout = time.Duration(n) * time.Second
+			}
+		}
 	}
 	if o.Expect == "sat" && timeout > 6*time.Second {
 		timeout = 6 * time.Second // vacuity probes: anything but `unsat` is fine, do not wait long
